@@ -197,7 +197,7 @@ def shard(ctx):
                 cells.append((parts[1], pid))
         rest = [(i, p) for p in sorted(presets) if presets[p].get("scale") != "global" for i in isos]
         rng = np.random.RandomState(ctx.seed)      # seeded sample of the remaining grid (finite domain; not a property-level RNG)
-        pick = rng.choice(len(rest), size=min(len(rest), 100), replace=False)
+        pick = rng.choice(len(rest), size=min(len(rest), 250), replace=False)
         cells += [rest[k] for k in sorted(pick)]
     for n, (iso, pid) in enumerate(cells):
         if n % ctx.nshards != ctx.shard:
